@@ -17,13 +17,13 @@ package main
 //     Set-Cookie carries the configured attributes.
 
 import (
-	"sync/atomic"
 	"bytes"
 	"encoding/base64"
 	"fmt"
 	"net/http"
 	"net/http/httptest"
 	"strings"
+	"sync/atomic"
 	"time"
 
 	"github.com/alicebob/miniredis/v2"
